@@ -3,12 +3,12 @@
 . /verif/scripts/env.sh
 export GOCACHE=/verif/out/gocache-baseline
 DIR=${1:-/repo}
-cd $DIR && $GO test -json -vet=off -count=1 -timeout 25m ./... > /verif/out/repo_tests.json 2>/verif/out/repo_tests.err
-python3 - <<'PY'
-import json
+cd $DIR && $GO test -json -vet=off -count=1 -timeout 25m ./... > /verif/out/repo_tests.$$.json 2>/verif/out/repo_tests.$$.err
+python3 - $$ <<'PY'
+import json,sys,os
 base=set(json.load(open('/root/.vp/BASELINE.json'))['stable_pass'])
 ok=set()
-for l in open('/verif/out/repo_tests.json'):
+for l in open('/verif/out/repo_tests.%s.json'%sys.argv[1]):
     try: d=json.loads(l)
     except: continue
     if d.get('Action')=='pass' and d.get('Test'):
@@ -16,4 +16,7 @@ for l in open('/verif/out/repo_tests.json'):
 missing=sorted(base-ok)
 print("baseline",len(base),"passing now",len(base&ok),"missing",len(missing))
 for m in missing[:20]: print("  MISSING",m)
+for e in ('json','err'):
+    try: os.remove('/verif/out/repo_tests.%s.%s'%(sys.argv[1],e))
+    except OSError: pass
 PY
